@@ -141,7 +141,10 @@ func (f *jwtFinalizer) Execute(ctx heimdall.Context, sub *subject.Subject) error
 			return err
 		}
 
-		if len(cacheKey) != 0 && f.ttl > defaultCacheLeeway {
+		// The cache key depends on the key used for signing. If the key store has been reloaded since the cache key has
+		// been calculated, the token is signed with another key than the one the cache key stands for, and must not be
+		// stored under it (otherwise it would be handed out again if the previous key became active once more).
+		if len(cacheKey) != 0 && f.ttl > defaultCacheLeeway && cacheKey == f.calculateCacheKey(ctx, sub) {
 			if err = cch.Set(ctx.AppContext(), cacheKey, stringx.ToBytes(jwtToken), f.ttl-defaultCacheLeeway); err != nil {
 				logger.Warn().Err(err).Msg("Failed to cache JWT token")
 			}
